@@ -7,7 +7,8 @@ block / op counting pass).  `Gen/Caps.lean` is regenerated from the crate on eve
 to the pinned `Spec/DocCaps.lean` by `decide`.
 
 Modelled: caps, counts, saturating arithmetic, stage order, the pipeline decision (plan kept or
-dropped, which warnings).  Abstract: the plan itself and the warnings of the passes that run below
+dropped, which warnings), and the interprocedural summary fixpoint with its event budget
+(`src/analysis/summary.rs`; section "summary events": below the limits the budget cannot run out).  Abstract: the plan itself and the warnings of the passes that run below
 the limits (C03 / C09), and the evaluator (`Model/Eval.lean`, family `run`): the run-equivalence
 statement is proved against an abstract `run` with its two hypotheses spelled out.
 -/
@@ -16,6 +17,7 @@ import NaijaVerif.Model.CfgCount
 import NaijaVerif.Gen.Caps
 import NaijaVerif.Spec.DocCaps
 import NaijaVerif.Lemmas.Limits
+import NaijaVerif.Lemmas.LimitsSummaryFix
 
 namespace NaijaVerif.Limits
 open NaijaVerif NaijaVerif.CfgCount
@@ -515,5 +517,246 @@ example : (countFunctions (blk [.fnDef (b!"f") sp0 [] (blk [asg, .ret none none 
 -- a function id outside the vectors is the code's index panic
 example : countFunctions (blk [.fnDef (b!"f") sp0 [] (blk []) (some 5) none sp0]) 2 = none := by decide
 end CountExamples
+
+/-! ### Summary events: below the limits the fixpoint's event budget cannot run out
+
+"Just below a limit the analyses run as usual" has a hidden obligation.  The interprocedural
+summary fixpoint (`compute_summaries_with_max_events`) runs with an event budget
+(`max_summary_events`); when it runs out, summaries silently become *unavailable* — fewer warnings,
+less pruning, and no resource-limit warning.  The preflight stage `summary events` compares
+`f·(f + 2l + 2)` with that budget; the theorems below show that this is indeed enough, for every
+call graph, every list of components in every order and every fuel.  Hypotheses on the direct facts
+(`Summary.DirectsOK nl ds`, what the resolver records): the three direct lists of every function
+are duplicate free, callee ids are below the number of functions `ds.length`, captured local ids
+below `nl`, statement classes are one of the three levels.  The call graph `g` the sweeps walk may
+be any graph over the functions (`Summary.GraphOK`: one entry per function, callee ids in range);
+the code uses `Summary.graph ds`.
+
+Why it holds: every event is paid for by an element pushed onto a duplicate-free list of ids below
+a known bound (callees `< f`, reads `< l`, writes `< l`) or by a strict increase of a class level
+`≤ 2` — the latter needs an invariant of the whole state, because the code charges an event whenever
+the recomputed class *differs* from the stored one (`Lemmas/LimitsSummaryFix.lean`). -/
+section SummaryEvents
+open Summary
+
+deriving instance DecidableEq for Except
+
+/-- **(T1, any components)** With a budget of at least `f·(f + 2l + 2)` events no component ever
+fails for lack of budget, nor because a callee's summary is unavailable — whatever the list of
+components and their order.  (The only failure left is the index panic of a "component" that names
+something that is not a function.) -/
+theorem summary_budget_never_runs_out (ds : List Direct) (nl : Nat) (g comps : List (List Nat))
+    (fuel budget : Nat) (hd : DirectsOK nl ds) (hg : GraphOK ds.length g)
+    (hb : ds.length * (ds.length + 2 * nl + 2) ≤ budget) :
+    firstFailure g fuel comps (initial ds) budget ≠ some .budget ∧
+      firstFailure g fuel comps (initial ds) budget ≠ some .unavailable := by
+  have hroom := roomAll_initial_le nl ds
+  rcases firstFailure_sufficient hg fuel comps (initial ds) budget (initial_ok hd g)
+    (initial_available ds) (by omega) with h | ⟨h, _⟩ <;> rw [h] <;> simp
+
+/-- **(T1)** … so when the components are lists of function ids, every component is summarised
+and **every summary stays available**.  No hypothesis on the order of the components is needed:
+a summary becomes unavailable only after a failure, and there is none. -/
+theorem summary_budget_suffices (ds : List Direct) (nl : Nat) (g comps : List (List Nat))
+    (fuel budget : Nat) (hd : DirectsOK nl ds) (hg : GraphOK ds.length g)
+    (hc : ∀ comp ∈ comps, ∀ i ∈ comp, i < ds.length)
+    (hb : ds.length * (ds.length + 2 * nl + 2) ≤ budget) :
+    firstFailure g fuel comps (initial ds) budget = none ∧
+      ∃ st, runGlobal g fuel comps (initial ds) budget = .ok st ∧ st.length = ds.length ∧
+        ∀ s ∈ st, s.available = true := by
+  have hroom := roomAll_initial_le nl ds
+  have hok := initial_ok hd g
+  rcases firstFailure_sufficient hg fuel comps (initial ds) budget hok (initial_available ds)
+    (by omega) with h | ⟨_, c, hcm, i, hi, hle⟩
+  · obtain ⟨st, h1, h2, h3⟩ := runGlobal_of_noFailure fuel comps (initial ds) budget hok
+      (initial_available ds) h
+    exact ⟨h, st, h1, h2.len, h3⟩
+  · have := hc c hcm i hi; omega
+
+/-- **(T1, the whole function)** `compute` is the model of `compute_summaries_with_max_events`
+including its own scheduling (`schedule`, tied to the code by correspondence only).  Whenever it
+returns — `none` is a panic of the code — every summary is available. -/
+theorem summary_compute_all_available (ds : List Direct) (nl fuel budget : Nat) (st : List Summ)
+    (hd : DirectsOK nl ds) (hb : ds.length * (ds.length + 2 * nl + 2) ≤ budget)
+    (h : compute ds budget fuel = some st) : ∀ s ∈ st, s.available = true := by
+  unfold compute at h
+  cases hs : schedule (graph ds) with
+  | none => simp [hs] at h
+  | some comps =>
+    simp only [hs] at h
+    have hroom := roomAll_initial_le nl ds
+    have hok := initial_ok hd (graph ds)
+    rcases firstFailure_sufficient (graph_ok hd) fuel comps (initial ds) budget hok
+      (initial_available ds) (by omega) with hf | ⟨hf, _⟩
+    · obtain ⟨st', h1, _, h3⟩ := runGlobal_of_noFailure fuel comps (initial ds) budget hok
+        (initial_available ds) hf
+      rw [h1] at h
+      cases h
+      exact h3
+    · rw [runGlobal_of_index fuel comps _ _ hf] at h
+      cases h
+
+/-- The preflight's saturating bound is the exact product when the function and local caps are
+below `2^31` (the defaults are `2^14` and `2^17`). -/
+theorem summaryBound_covers (caps : Caps) (c : Counts) (hf : caps.maxFunctions < 2 ^ 31)
+    (hl : caps.maxLocals < 2 ^ 31) (h : firstExceeded caps c = none) :
+    c.functions * (c.functions + 2 * c.locals + 2) ≤ caps.maxSummaryEvents := by
+  have hall := (firstExceeded_none_iff caps c).mp h
+  have h1 := hall .functions
+  have h2 := hall .locals
+  have h3 := hall .summaryEvents
+  simp only [observed, Caps.get] at h1 h2 h3
+  rw [summaryBound_exact _ _ (by omega)] at h3
+  have hprod : c.functions * (c.functions + 2 * c.locals + 2) ≤ (2 ^ 31 - 1) * 2 ^ 33 :=
+    Nat.mul_le_mul (by omega) (by omega)
+  have : c.functions * (c.functions + 2 * c.locals + 2) ≤ u64Max := by
+    unfold u64Max; omega
+  rw [Nat.min_eq_left this] at h3
+  exact h3
+
+/-- **(T2)** In terms of the preflight: a program that `first_exceeded_limit` lets through
+(`firstExceeded caps c = none`, with `c.functions` / `c.locals` the sizes of the direct facts) is
+summarised completely with `caps.maxSummaryEvents` as the event budget — no budget failure, every
+summary available. -/
+theorem summary_budget_suffices_below_limits (caps : Caps) (c : Counts) (ds : List Direct)
+    (g comps : List (List Nat)) (fuel : Nat) (hf : caps.maxFunctions < 2 ^ 31)
+    (hl : caps.maxLocals < 2 ^ 31) (hcf : c.functions = ds.length) (hd : DirectsOK c.locals ds)
+    (hg : GraphOK ds.length g) (hc : ∀ comp ∈ comps, ∀ i ∈ comp, i < ds.length)
+    (h : firstExceeded caps c = none) :
+    firstFailure g fuel comps (initial ds) caps.maxSummaryEvents = none ∧
+      ∃ st, runGlobal g fuel comps (initial ds) caps.maxSummaryEvents = .ok st ∧
+        st.length = ds.length ∧ ∀ s ∈ st, s.available = true := by
+  have := summaryBound_covers caps c hf hl h
+  rw [hcf] at this
+  exact summary_budget_suffices ds c.locals g comps fuel _ hd hg hc this
+
+/-- **(T2, the crate's configuration)** At `DEFAULT_CAPS` (`Gen.Caps.defaults`, regenerated from the
+crate on every run) with the crate's own budget `DEFAULT_CAPS.max_summary_events`
+(`compute_summaries`). -/
+theorem summary_budget_suffices_default (c : Counts) (ds : List Direct) (g comps : List (List Nat))
+    (fuel : Nat) (hcf : c.functions = ds.length) (hd : DirectsOK c.locals ds)
+    (hg : GraphOK ds.length g) (hc : ∀ comp ∈ comps, ∀ i ∈ comp, i < ds.length)
+    (h : firstExceeded Gen.Caps.defaults c = none) :
+    firstFailure g fuel comps (initial ds) Gen.Caps.defaults.maxSummaryEvents = none ∧
+      ∃ st, runGlobal g fuel comps (initial ds) Gen.Caps.defaults.maxSummaryEvents = .ok st ∧
+        st.length = ds.length ∧ ∀ s ∈ st, s.available = true :=
+  summary_budget_suffices_below_limits Gen.Caps.defaults c ds g comps fuel (by decide) (by decide)
+    hcf hd hg hc h
+
+/-- **(T4)** The `while changed` loop of `summarize_component` needs no fuel beyond the room: with
+more than `f·(f + 2l + 2)` sweeps allowed per component the fuel never decides the result of the
+run (any two such fuels agree, for every call graph, component list and budget — also when the
+budget runs out) … -/
+theorem summary_fuel_irrelevant (ds : List Direct) (nl : Nat) (g comps : List (List Nat))
+    (budget fuel₁ fuel₂ : Nat) (hd : DirectsOK nl ds)
+    (h1 : ds.length * (ds.length + 2 * nl + 2) < fuel₁)
+    (h2 : ds.length * (ds.length + 2 * nl + 2) < fuel₂) :
+    runGlobal g fuel₁ comps (initial ds) budget = runGlobal g fuel₂ comps (initial ds) budget := by
+  have hroom := roomAll_initial_le nl ds
+  exact runGlobal_fuel comps (initial ds) budget (initial_ok hd g) (by omega) (by omega)
+
+/-- **(T4)** … and each component's loop ends by itself (the model's "ended by itself" flag is
+`true`): every sweep that changes something pays at least one event out of the room of the
+state, which is at most `f·(f + 2l + 2)` in every state the fixpoint reaches (`StOK`). -/
+theorem summarize_component_terminates (nf nl : Nat) (g : List (List Nat)) (comp : List Nat)
+    (fuel : Nat) (st : List Summ) (b : Nat) (hok : StOK nf nl g st)
+    (hfuel : nf * (nf + 2 * nl + 2) < fuel) (st' : List Summ) (b' : Nat) (fl : Bool)
+    (h : summarizeComponent g comp fuel st b = .ok (st', b', fl)) : fl = true := by
+  have := roomAll_le nf nl st
+  rw [hok.len] at this
+  exact summarizeComponent_flag fuel st b hok (by omega) h
+
+/-! #### Non-vacuity: a call graph with a real cycle
+
+`0` (the root, impure) calls `1` and `4`; `1 → 2 → 3 → 1` is a cycle whose members read and write
+captured locals; `4` calls itself; `5` is never called.  6 functions, 3 locals: the preflight
+bound is `6·(6 + 6 + 2) = 84`, the run needs 19 events. -/
+
+
+def exDirects : List Direct :=
+  [⟨[1, 4], [], [], [2]⟩, ⟨[2], [0], [], [0]⟩, ⟨[3], [], [1], [0]⟩, ⟨[1], [2], [], [1]⟩,
+   ⟨[4], [], [], []⟩, ⟨[], [0, 1], [2], []⟩]
+
+theorem exDirects_ok : DirectsOK 3 exDirects :=
+  ⟨by decide, by decide, by decide, by decide, by decide, by decide, by decide⟩
+
+/-- the code's own schedule: callee components first -/
+example : schedule (graph exDirects) = some [[5], [4], [1, 2, 3], [0]] := by decide
+
+/-- with the bound as budget: everything available, the cycle's members know each other and each
+other's captures, the class of the cycle is the join -/
+example : compute exDirects 84 85 = some
+    [⟨true, [1, 4, 2, 3], [0, 2], [1], 2, 2⟩, ⟨true, [2, 3, 1], [0, 2], [1], 0, 2⟩,
+     ⟨true, [3, 1, 2], [2, 0], [1], 2, 2⟩, ⟨true, [1, 2, 3], [2, 0], [1], 1, 2⟩,
+     ⟨true, [4], [], [], 0, 0⟩, ⟨true, [], [0, 1], [2], 2, 2⟩] := by decide
+
+/-- the theorem's conclusion on it, for a component order that is NOT callee-first -/
+example : firstFailure (graph exDirects) 85 [[0], [1, 2, 3], [4], [5]] (initial exDirects) 84 = none := by
+  decide
+
+/-- the run needs 19 events (14 for the cycle, 5 for the root): with 18 the root is lost, with 13
+the cycle and the root (scheduled after it) — the fallback the theorems exclude is real -/
+example : eventsPerComponent (graph exDirects) 85 [[5], [4], [1, 2, 3], [0]] (initial exDirects) 84 =
+    [0, 0, 14, 5] := by decide
+example : (compute exDirects 19 85).map (·.map (·.available)) =
+    some [true, true, true, true, true, true] := by decide
+example : (compute exDirects 18 85).map (·.map (·.available)) =
+    some [false, true, true, true, true, true] := by decide
+example : (compute exDirects 13 85).map (·.map (·.available)) =
+    some [false, false, false, false, true, true] := by decide
+example : firstFailure (graph exDirects) 85 [[5], [4], [1, 2, 3], [0]] (initial exDirects) 12 =
+    some .budget := by decide
+
+/-- the preflight lets the program through at the default caps … -/
+example : firstExceeded Gen.Caps.defaults { small with functions := 6, locals := 3 } = none := by decide
+
+/-- … fuel: one sweep too few is visible (the flag), more than the room never is -/
+example : (summarizeComponent (graph exDirects) [1, 2, 3] 2 (initial exDirects) 84).map (·.2.2) =
+    .ok false := by decide
+example : (summarizeComponent (graph exDirects) [1, 2, 3] 85 (initial exDirects) 84).map (·.2.2) =
+    .ok true := by decide
+example : runGlobal (graph exDirects) 85 [[5], [4], [1, 2, 3], [0]] (initial exDirects) 16 =
+    runGlobal (graph exDirects) 1000 [[5], [4], [1, 2, 3], [0]] (initial exDirects) 16 := by decide
+
+/-! #### (T3) The split design is refuted
+
+`runSplit` is the fixpoint with the budget divided evenly between the components (and continuing
+after a failure).  A ring of five functions, one of them impure, next to five leaves: ten functions,
+no locals, preflight bound `10·12 = 120`.  Six components, so a share is 20 events; the ring needs
+24 (each member learns four more callees, four members change class). -/
+
+def splitWitness : List Direct :=
+  [⟨[1], [], [], [2]⟩, ⟨[2], [], [], []⟩, ⟨[3], [], [], []⟩, ⟨[4], [], [], []⟩, ⟨[0], [], [], []⟩,
+   ⟨[], [], [], []⟩, ⟨[], [], [], []⟩, ⟨[], [], [], []⟩, ⟨[], [], [], []⟩, ⟨[], [], [], []⟩]
+
+theorem splitWitness_ok : DirectsOK 0 splitWitness :=
+  ⟨by decide, by decide, by decide, by decide, by decide, by decide, by decide⟩
+
+/-- **(T3)** A program below every limit (budget = the preflight bound = the configured cap) that
+an equal share per component leaves with unavailable summaries, while the single budget of the
+code summarises it completely.  The hypotheses of `summary_budget_suffices` hold of it. -/
+theorem split_budget_is_unsound :
+    ∃ (ds : List Direct) (nl budget : Nat) (comps : List (List Nat)),
+      DirectsOK nl ds ∧ schedule (graph ds) = some comps ∧
+      budget = ds.length * (ds.length + 2 * nl + 2) ∧
+      firstExceeded { Gen.Caps.defaults with maxSummaryEvents := budget }
+        { small with functions := ds.length, locals := nl } = none ∧
+      (∃ st, runGlobal (graph ds) (budget + 1) comps (initial ds) budget = .ok st ∧
+        ∀ s ∈ st, s.available = true) ∧
+      (∃ st, runSplit (graph ds) (budget + 1) (budget / comps.length) comps (initial ds) = .ok st ∧
+        ∃ s ∈ st, s.available = false) := by
+  refine ⟨splitWitness, 0, 120, [[9], [8], [7], [6], [5], [0, 1, 2, 3, 4]], splitWitness_ok,
+    by decide, by decide, by decide, ?_, ?_⟩
+  · obtain ⟨_, st, h1, _, h3⟩ := summary_budget_suffices splitWitness 0 (graph splitWitness)
+      [[9], [8], [7], [6], [5], [0, 1, 2, 3, 4]] 121 120 splitWitness_ok (graph_ok splitWitness_ok)
+      (by decide) (by decide)
+    exact ⟨st, h1, h3⟩
+  · exact ⟨markUnavailable [0, 1, 2, 3, 4] (initial splitWitness), by decide, by decide⟩
+
+/-- what the ring needs, and what a share is -/
+example : eventsPerComponent (graph splitWitness) 121 [[9], [8], [7], [6], [5], [0, 1, 2, 3, 4]]
+    (initial splitWitness) 120 = [0, 0, 0, 0, 0, 24] := by decide
+
+end SummaryEvents
 
 end NaijaVerif.Limits
